@@ -11,6 +11,7 @@ import MtailVerif.Driver.C16
 import MtailVerif.Driver.C18
 import MtailVerif.Driver.C17
 import MtailVerif.Driver.C19
+import MtailVerif.Driver.C02
 /-! `mtailmodel <prop>`: reads the case lines written by the Go harness on stdin and prints
     `<id> OBS <observation>` computed by the Lean model.  Core Lean only (links as an exe). -/
 open MtailVerif MtailVerif.Driver
@@ -29,6 +30,7 @@ def handlerFor (prop : String) : Option (List String → String) :=
   | "C18" => some C18.handle
   | "C17" => some C17.handle
   | "C19" => some C19.handle
+  | "C02" => some C02.handle
   | "C14" => some Rt.handle
   | "C06" => some Rt.handle
   | "C25" => some Rt.handle
